@@ -438,6 +438,19 @@ func (mpt *MerklePatriciaTrie) delete(key Key, prefix, path Path) (Node, Key, er
 		return nil, nil, err
 	}
 	if len(path) == 0 {
+		// the path ends at this node, there is a value to delete only if the node holds one for exactly this path
+		switch nodeImpl := node.(type) {
+		case *LeafNode:
+			if len(nodeImpl.Path) != 0 {
+				return nil, nil, ErrValueNotPresent
+			}
+		case *FullNode:
+			if !nodeImpl.HasValue() {
+				return nil, nil, ErrValueNotPresent
+			}
+		case *ExtensionNode:
+			return nil, nil, ErrValueNotPresent
+		}
 		return mpt.deleteAfterPathTraversal(node)
 	}
 	return mpt.deleteAtNode(key, node, prefix, path)
